@@ -348,7 +348,7 @@ Qed.
 
 (* ---- recovery on a crash image of a state satisfying the invariant ---- *)
 (* The logs always recover; ahtree.OpenWith's size check is the only thing that can fail (it does for
-   the code as it is, Crash/Refuted.v; it cannot with the proposed repair, Crash/TreeProofs.v). *)
+   the code between 09014a8 and 0b488aa, Crash/Refuted.v; it cannot since fix 0b488aa, Crash/TreeProofs.v). *)
 Lemma recover_ok nv s h d im upto :
   Inv nv s h d -> VInv H s h d -> crash s im ->
   (len (i_ahd im) < 32 * (len (i_ahc im) / 12) /\ recover_upto H upto (s_cfg s) im = Err ECorruptedData) \/
